@@ -52,10 +52,15 @@ def cell(kind, tl, tr, L, R):
         return [text(L), T('#> nopartial', True), text(R + 'B'), tag('/nopartial', True)]
     if kind == 'pblockclose':
         return [tag('#> nopartial', True), text('B' + L), T('/nopartial', True), text(R)]
+    if kind == 'rawopen':
+        # the body of a raw block is text: `{{x}}` in it is literal
+        return [text(L), tag('raw', True, tl, tr, quad=True), text(R + '{{x}} B'), tag('/raw', True, quad=True)]
+    if kind == 'rawclose':
+        return [tag('raw', True, quad=True), text('B {{x}}' + L), tag('/raw', True, tl, tr, quad=True), text(R)]
     raise ValueError(kind)
 
 KINDS = ['value', 'html', 'helper', 'open', 'close', 'else', 'elsechain', 'eachopen', 'comment', 'comment2',
-         'partial', 'inlineopen', 'inlineclose', 'pblockopen', 'pblockclose']
+         'partial', 'inlineopen', 'inlineclose', 'pblockopen', 'pblockclose', 'rawopen', 'rawclose']
 
 def gen_cases(rng, tier, scale):
     cases = []
